@@ -876,3 +876,107 @@ func shapes(ch []*openfgav1.Userset) string {
 	}
 	return strings.Join(parts, ",")
 }
+
+// HasAcyclicDirectEdgeTo reports whether some relation X#y reachable from typ#rel in the relation
+// dependency graph (typ#rel included) lists subjType#subjRel as a directly related userset type while
+// X#y and subjType#subjRel are not in one cycle of that graph (different SCCs, and not the same
+// relation). Such an edge is where an engine that answers a userset subject by a direct lookup only
+// would stop short.
+func (m *Model) HasAcyclicDirectEdgeTo(typ, rel, subjType, subjRel string) bool {
+	target := RelKey(subjType, subjRel)
+	seen := map[string]bool{}
+	var walk func(k string) bool
+	walk = func(k string) bool {
+		if seen[k] {
+			return false
+		}
+		seen[k] = true
+		i := strings.Index(k, "#")
+		t, r := k[:i], k[i+1:]
+		us := m.Rewrite(t, r)
+		if us == nil {
+			return false
+		}
+		for _, rr := range m.Restrictions(t, r) {
+			if rr.GetType() == subjType && rr.GetRelation() == subjRel && k != target {
+				sa, oka := m.sccOf[k]
+				sb, okb := m.sccOf[target]
+				if !oka || !okb || sa != sb {
+					return true
+				}
+			}
+		}
+		var es []depEdge
+		m.deps(t, us, false, &es, r)
+		for _, e := range es {
+			if walk(e.to) {
+				return true
+			}
+		}
+		return false
+	}
+	return walk(RelKey(typ, rel))
+}
+
+// ReachesByRewrite reports whether subjType#subjRel is reached from typ#rel in the relation dependency
+// graph by an edge that is NOT a direct type restriction: a computed userset or the computed side of a
+// tuple-to-userset (the subject's relation is then contained in the target by the rewrite rules alone).
+func (m *Model) ReachesByRewrite(typ, rel, subjType, subjRel string) bool {
+	target := RelKey(subjType, subjRel)
+	seen := map[string]bool{}
+	var viaRewrite func(t string, us *openfgav1.Userset) bool
+	viaRewrite = func(t string, us *openfgav1.Userset) bool {
+		switch u := us.GetUserset().(type) {
+		case *openfgav1.Userset_ComputedUserset:
+			return RelKey(t, u.ComputedUserset.GetRelation()) == target
+		case *openfgav1.Userset_TupleToUserset:
+			ts := u.TupleToUserset.GetTupleset().GetRelation()
+			cr := u.TupleToUserset.GetComputedUserset().GetRelation()
+			for _, rr := range m.Restrictions(t, ts) {
+				if rr.GetRelation() == "" && rr.GetWildcard() == nil && RelKey(rr.GetType(), cr) == target {
+					return true
+				}
+			}
+		case *openfgav1.Userset_Union:
+			for _, c := range u.Union.GetChild() {
+				if viaRewrite(t, c) {
+					return true
+				}
+			}
+		case *openfgav1.Userset_Intersection:
+			for _, c := range u.Intersection.GetChild() {
+				if viaRewrite(t, c) {
+					return true
+				}
+			}
+		case *openfgav1.Userset_Difference:
+			return viaRewrite(t, u.Difference.GetBase())
+		}
+		return false
+	}
+	var walk func(k string) bool
+	walk = func(k string) bool {
+		if seen[k] {
+			return false
+		}
+		seen[k] = true
+		i := strings.Index(k, "#")
+		t, r := k[:i], k[i+1:]
+		us := m.Rewrite(t, r)
+		if us == nil {
+			return false
+		}
+		if viaRewrite(t, us) {
+			return true
+		}
+		var es []depEdge
+		m.deps(t, us, false, &es, r)
+		for _, e := range es {
+			if walk(e.to) {
+				return true
+			}
+		}
+		return false
+	}
+	return walk(RelKey(typ, rel))
+}
